@@ -94,6 +94,34 @@ def instance_memo_rule(ctx, rule: str, classes: List[Class], what: str):
                             derived=ast.unparse(st)[:120], required="recompute, or invalidate wherever the inputs change")
                 else:
                     ctx.ok(rule, cname, "on-demand attribute is keyed on its argument / refreshed by every in-place mutator", f.loc(st))
+    # functools.cached_property is the same memo without the explicit attribute: computed from the object's state on first
+    # access, kept in the instance dict under the property's name, never recomputed unless that entry is deleted
+    for f in methods:
+        if not getattr(f, "is_cached_property", False):
+            continue
+        n_memos += 1
+        reads_state = any(isinstance(n, ast.Name) and n.id == "self" for n in ast.walk(f.node))
+        muts = [m for m in methods if m is not f and not _is_setter_or_init(m) and "self" in ef.summary(m, m.cls).mutated_params]
+
+        def clears(m):
+            for x in ast.walk(m.node):
+                if isinstance(x, ast.Delete) and any(_self_attr(t) == f.name for t in x.targets):
+                    return True
+                if isinstance(x, ast.Call) and isinstance(x.func, ast.Attribute) and x.func.attr in ("pop", "clear") \
+                        and "__dict__" in ast.unparse(x.func.value) and (x.func.attr == "clear" or any(
+                            isinstance(a, ast.Constant) and a.value == f.name for a in x.args)):
+                    return True
+            return False
+        stale = [m.qualname for m in muts if not clears(m)]
+        cname = f"{f.qualname}[cached_property]"
+        if reads_state and stale:
+            ctx.bad(rule, cname, f"`{f.name}` is a cached_property computed from the object's own data, which "
+                    + ", ".join(sorted(set(stale))[:4]) + (" ..." if len(set(stale)) > 4 else "")
+                    + " change in place without deleting the cached value: a query after such a change returns the value of the "
+                    "object as it was at the first query", f.loc(), derived="@cached_property " + f.name,
+                    required="a plain property, or `del self." + f.name + "` wherever the inputs change")
+        else:
+            ctx.ok(rule, cname, "cached value is dropped by every in-place mutator (or depends on no instance state)", f.loc())
     ctx.ok(rule, f"<{what}: fill-on-demand attributes inspected>",
            f"{n_methods} methods of {len(hier)} classes inspected, {n_memos} fill-on-demand attribute(s) found and judged")
     return n_memos
@@ -103,7 +131,8 @@ POSITIVE = {"m.py": "class S:\n    def __init__(self, dataset):\n        self.da
                     "    @property\n    def e(self):\n        if self._e is None:\n            self._e = self.dataset['x'] * 2\n        return self._e\n"
                     "    def scale(self, c):\n        self.dataset['x'] = self.dataset['x'] * c\n"
                     "    def grid(self, spectrum):\n        if self._g is None or self._n != len(spectrum):\n"
-                    "            self._g = spectrum.grid()\n            self._n = len(spectrum)\n        return self._g\n"}
+                    "            self._g = spectrum.grid()\n            self._n = len(spectrum)\n        return self._g\n"
+                    "    @cached_property\n    def k(self):\n        return self.dataset['x'] + 1\n"}
 
 
 def positive_example(ctx, rule):
